@@ -10,7 +10,6 @@ package p9
 // the waits below only give the subject the chance to misbehave, they never decide a verdict.
 
 import (
-	"runtime"
 	"sort"
 	"time"
 
@@ -41,15 +40,7 @@ func (s *vhsSess) gatedRecord(kind string, nprobe int, replied bool) map[string]
 	for _, id := range ids {
 		s.stopConn(id, nil)
 	}
-	gd := 0
-	for i := 0; i < 200; i++ {
-		gd = runtime.NumGoroutine() - s.g0
-		if gd <= 0 {
-			gd = 0
-			break
-		}
-		time.Sleep(2 * time.Millisecond)
-	}
+	gd := vhsSettle(s.g0)
 	s.fs.mu.Lock()
 	log := append([][]int{}, s.fs.log...)
 	nh := s.fs.nextH
@@ -209,4 +200,154 @@ func vhgUnlinkVsWalk(wga, dir bool) map[string]interface{} {
 		np++
 	}
 	return s.gatedRecord("gated-unlink-walk", np, replied)
+}
+
+// vhgRenameVsBind: a request that binds a new File below /n1 - a clone (zero-name walk) of the fid on
+// /n1/n4, a walk from it to its child n5, or a Tlcreate of n5 in it - is parked inside its backend call,
+// after the backend made the new File (which has copied its path); a Trenameat of an ancestor (/n1) or of
+// the entry itself (/n1/n4), within the directory or into /n2, is issued meanwhile on another connection.
+// Whichever order the server chooses, afterwards every fid has to reach the object it was bound to (the
+// probes): a rename that completes inside the window notifies only the registered fidRefs, so the File
+// being bound would keep the old path.  The wait only gives the rename the chance to overtake.
+func vhgRenameVsBind(wga bool, bind string, self, cross bool) map[string]interface{} {
+	s := vhsNewSess(wga, nil)
+	s.exec(vhsOp{K: "attach", A: []int{0, 0}})
+	s.exec(vhsOp{K: "attach", A: []int{1, 0}})
+	s.exec(vhsOp{K: "mk", A: []int{0, 0, 0, 1}})
+	s.exec(vhsOp{K: "mk", A: []int{0, 0, 0, 2}})
+	s.exec(vhsOp{K: "walk", A: []int{1, 0, 2}, Names: []int{2}}) // connection 1: fid 2 on /n2
+	s.exec(vhsOp{K: "walk", A: []int{1, 0, 4}, Names: []int{1}}) // connection 1: fid 4 on /n1
+	s.fs.mu.Lock()
+	h14 := s.fs.nextH - 1
+	s.fs.mu.Unlock()
+	s.exec(vhsOp{K: "walk", A: []int{0, 0, 1}, Names: []int{1}}) // connection 0: fid 1 on /n1
+	s.exec(vhsOp{K: "mk", A: []int{0, 0, 1, 4}})
+	s.exec(vhsOp{K: "walk", A: []int{0, 1, 3}, Names: []int{4}}) // connection 0: fid 3 on /n1/n4
+	s.fs.mu.Lock()
+	h3 := s.fs.nextH - 1
+	s.fs.mu.Unlock()
+	s.exec(vhsOp{K: "mk", A: []int{0, 0, 3, 5}}) // /n1/n4/n5 (walk target)
+	s.fs.mu.Lock()
+	ino5, _ := s.fs.resolve([]int{1, 4, 5})
+	s.fs.mu.Unlock()
+	nf := 5
+	var m message
+	var key [3]int
+	wtag := 1
+	if wga {
+		wtag = 2
+	}
+	switch bind {
+	case "clone":
+		m, key = &twalk{fid: 3, newFID: 5}, [3]int{1, h3, 0}
+	case "cloneg":
+		m, key = &twalkgetattr{fid: 3, newFID: 5}, [3]int{wtag, h3, 0}
+	case "walk":
+		m, key = &twalk{fid: 3, newFID: 5, Names: []string{vhfsName(5)}}, [3]int{wtag, h3, 6}
+	default: // create n6 in a clone of fid 3 (Tlcreate rebinds its fid)
+		s.exec(vhsOp{K: "walk", A: []int{0, 3, 6}})
+		s.fs.mu.Lock()
+		h6 := s.fs.nextH - 1
+		s.fs.mu.Unlock()
+		nf = 6
+		m, key = &tlcreate{fid: 6, Name: vhfsName(6), OpenFlags: 2, Permissions: 0o644}, [3]int{5, h6, 6}
+	}
+	// the rename: of /n1 through connection 1's root fid, or of /n1/n4 through its fid on /n1
+	rn := &trenameat{OldDirectory: 0, OldName: vhfsName(1), NewDirectory: 0, NewName: vhfsName(3)}
+	wkey := [2]int{9, 1} // RenameAt on connection 1's root File (handle 1)
+	if self {
+		rn = &trenameat{OldDirectory: 4, OldName: vhfsName(4), NewDirectory: 4, NewName: vhfsName(3)}
+		wkey = [2]int{9, h14}
+	}
+	if cross {
+		rn.NewDirectory = 2
+	}
+	ent, rel, seen := make(chan struct{}), make(chan struct{}), make(chan struct{})
+	s.fs.mu.Lock()
+	s.fs.gateKey, s.fs.gateEntered, s.fs.gateRelease = key, ent, rel
+	s.fs.watchKey, s.fs.watched = wkey, seen
+	s.fs.mu.Unlock()
+	c0, c1 := s.conn(0), s.conn(1)
+	s.sendOnly(c0, m)
+	replied := true
+	gotRn := false
+	select {
+	case <-ent:
+		s.sendOnly(c1, rn)
+		select {
+		case <-seen: // the rename reached the backend while the binding request is parked: let it finish
+			_, gotRn = s.recvOnly(c1, 2*time.Second)
+		case <-time.After(400 * time.Millisecond): // it waits for the binding request, as it should
+		}
+		close(rel)
+	case <-time.After(5 * time.Second):
+		close(rel)
+		replied = false
+	}
+	r0, ok0 := s.recvOnly(c0, 5*time.Second)
+	ok1 := gotRn
+	if !gotRn {
+		_, ok1 = s.recvOnly(c1, 5*time.Second)
+	}
+	replied = replied && ok0 && ok1
+	switch x := r0.(type) {
+	case *rwalk, *rwalkgetattr:
+		if bind == "walk" {
+			s.bind(0, nf, ino5)
+		} else {
+			s.bound[[2]int{0, nf}] = s.bound[[2]int{0, 3}]
+		}
+	case *rlcreate:
+		s.bind(0, nf, vhsQidPath(x.QID))
+	}
+	np := 0
+	for _, op := range []vhsOp{{K: "getattr", A: []int{0, nf}}, {K: "getattr", A: []int{0, 3}}, {K: "getattr", A: []int{0, 1}}, {K: "getattr", A: []int{1, 4}}} {
+		s.exec(op)
+		np++
+	}
+	return s.gatedRecord("gated-rename-bind", np, replied)
+}
+
+// vhgRenamedPanic: the backend panics inside the Renamed callback of a File one level (deep: two levels) below a
+// directory that is renamed - inside notifyNameChange, after references were taken on the fidRefs told so far.
+// The request is answered (EFAULT, recovered); then every connection is dropped.  Judged: every File closed
+// exactly once, none used after its Close, Handle returned, no goroutine left - references taken for the
+// notifications must be given back on the panic path too, or the Files told so far and all their ancestors
+// are never closed.  Sequential; evaluated as a CGated record (property only: backend panics are outside the model).
+func vhgRenamedPanic(wga, deep, cross bool) map[string]interface{} {
+	s := vhsNewSess(wga, nil)
+	s.exec(vhsOp{K: "attach", A: []int{0, 0}})
+	s.exec(vhsOp{K: "attach", A: []int{1, 0}})
+	s.exec(vhsOp{K: "mk", A: []int{0, 0, 0, 1}})
+	s.exec(vhsOp{K: "mk", A: []int{0, 0, 0, 2}})
+	s.exec(vhsOp{K: "walk", A: []int{0, 0, 2}, Names: []int{2}}) // fid 2 on /n2
+	s.exec(vhsOp{K: "walk", A: []int{0, 0, 1}, Names: []int{1}}) // fid 1 on /n1
+	s.exec(vhsOp{K: "mk", A: []int{0, 0, 1, 4}})
+	s.exec(vhsOp{K: "walk", A: []int{0, 1, 3}, Names: []int{4}}) // fid 3 on /n1/n4
+	s.fs.mu.Lock()
+	h := s.fs.nextH - 1
+	s.fs.mu.Unlock()
+	s.exec(vhsOp{K: "walk", A: []int{1, 0, 6}, Names: []int{1, 4}}) // connection 1: a second fidRef on /n1/n4 (and one on /n1)
+	s.exec(vhsOp{K: "mk", A: []int{1, 0, 3, 5}})
+	s.exec(vhsOp{K: "walk", A: []int{0, 3, 5}, Names: []int{5}}) // fid 5 on /n1/n4/n5
+	if deep {
+		s.fs.mu.Lock()
+		h = s.fs.nextH - 1
+		s.fs.mu.Unlock()
+	}
+	s.exec(vhsOp{K: "walk", A: []int{0, 5, 7}}) // and a clone of it
+	s.fs.mu.Lock()
+	s.fs.panicRenamed = h
+	s.fs.mu.Unlock()
+	dst := 0
+	if cross {
+		dst = 2
+	}
+	s.exec(vhsOp{K: "renameat", A: []int{0, 0, 1, dst, 3}}) // /n1 -> /n3 or /n2/n3: answered EFAULT
+	s.fs.mu.Lock()
+	s.fs.panicRenamed = -1
+	s.fs.mu.Unlock()
+	s.exec(vhsOp{K: "getattr", A: []int{0, 0}}) // the server still serves
+	s.exec(vhsOp{K: "getattr", A: []int{1, 0}})
+	return s.gatedRecord("gated-renamed-panic", 2, s.broken == "")
 }
